@@ -1,7 +1,7 @@
 //! Reference values. Written from the Cedar language definition, independent of cedar's code.
 use std::collections::{BTreeMap, BTreeSet};
 
-#[derive(Clone, Debug, PartialEq, Eq, PartialOrd, Ord, Hash)]
+#[derive(Clone, Debug, PartialEq, Eq, PartialOrd, Ord, Hash, serde::Serialize, serde::Deserialize)]
 pub struct Uid {
     /// fully qualified type name, e.g. `NS::Thing`
     pub ty: String,
@@ -14,7 +14,7 @@ impl Uid {
     }
 }
 
-#[derive(Clone, Debug, PartialEq, Eq, PartialOrd, Ord, Hash)]
+#[derive(Clone, Debug, PartialEq, Eq, PartialOrd, Ord, Hash, serde::Serialize, serde::Deserialize)]
 pub struct IpVal {
     pub v6: bool,
     /// address bits (v4 in the low 32 bits)
@@ -22,7 +22,7 @@ pub struct IpVal {
     pub prefix: u8,
 }
 
-#[derive(Clone, Debug, PartialEq, Eq, PartialOrd, Ord, Hash)]
+#[derive(Clone, Debug, PartialEq, Eq, PartialOrd, Ord, Hash, serde::Serialize, serde::Deserialize)]
 pub enum ExtVal {
     /// value * 10^4
     Decimal(i64),
@@ -33,7 +33,7 @@ pub enum ExtVal {
     Duration(i64),
 }
 
-#[derive(Clone, Debug, PartialEq, Eq, PartialOrd, Ord, Hash)]
+#[derive(Clone, Debug, PartialEq, Eq, PartialOrd, Ord, Hash, serde::Serialize, serde::Deserialize)]
 pub enum Val {
     Bool(bool),
     Long(i64),
@@ -68,7 +68,7 @@ impl Val {
 }
 
 /// The error classes the properties distinguish.
-#[derive(Clone, Copy, Debug, PartialEq, Eq, PartialOrd, Ord, Hash)]
+#[derive(Clone, Copy, Debug, PartialEq, Eq, PartialOrd, Ord, Hash, serde::Serialize, serde::Deserialize)]
 pub enum ErrClass {
     Type,
     EntityMissing,
@@ -83,7 +83,7 @@ pub enum ErrClass {
 pub type R = Result<Val, ErrClass>;
 
 /// Entity record of the reference store.
-#[derive(Clone, Debug, PartialEq, Eq, PartialOrd, Ord, Hash, Default)]
+#[derive(Clone, Debug, PartialEq, Eq, PartialOrd, Ord, Hash, Default, serde::Serialize, serde::Deserialize)]
 pub struct Ent {
     pub attrs: BTreeMap<String, Val>,
     pub tags: BTreeMap<String, Val>,
@@ -91,7 +91,7 @@ pub struct Ent {
     pub parents: BTreeSet<Uid>,
 }
 
-#[derive(Clone, Debug, PartialEq, Eq, PartialOrd, Ord, Hash, Default)]
+#[derive(Clone, Debug, PartialEq, Eq, PartialOrd, Ord, Hash, Default, serde::Serialize, serde::Deserialize)]
 pub struct Store {
     pub ents: BTreeMap<Uid, Ent>,
 }
@@ -134,7 +134,7 @@ impl Store {
     }
 }
 
-#[derive(Clone, Debug, PartialEq, Eq, PartialOrd, Ord, Hash)]
+#[derive(Clone, Debug, PartialEq, Eq, PartialOrd, Ord, Hash, serde::Serialize, serde::Deserialize)]
 pub struct Req {
     pub principal: Uid,
     pub action: Uid,
